@@ -273,6 +273,13 @@ def rule_r3(ctx: Ctx) -> None:
                     ctx.accept("C08.R3", f.loc(c), TIME_ALLOW[base])
                 ctx.ob("C08.R3", f, c, f"ambient source {nm}", ok,
                        "" if ok else f"{nm}() is process-global / wall-clock state: the search no longer depends on the seed alone")
+            elif call_name(c) == "__subclasses__":
+                # type.__subclasses__() lists classes in the order they were *defined*: the order modules happened to be imported in
+                n += 1
+                ctx.ob("C08.R3", f, c, "class registry order (__subclasses__)", False,
+                       f"'{norm(c)[:60]}' enumerates subclasses in class-definition order, i.e. in the order the modules were imported: what is built from it "
+                       f"(the order of a symbol's productions, which every seeded choice indexes) differs between two processes that import the same "
+                       f"grammar modules in another order")
             elif t.kind == "builtin" and t.name in ("id", "hash"):
                 n += 1
                 # allowed: inside __hash__, or inside a logging call / f-string of a logging call
